@@ -57,7 +57,13 @@ pub fn gen_float(rng: &mut Rng, sw: &Swarm) -> Op {
         32 => Op::new(&nm("intoparts")).a(a).dst(d).form(form(rng)),
         33 => Op::new(&nm("str")).a(a).dst(d).form(rng.below(4)),
         34 => Op::new(&nm("fmt")).a(a).form(rng.below(6)),
-        35 => Op::new(&nm("query")).a(a).b(b),
+        35 => {
+            if rng.chance(2, 3) {
+                Op::new(&nm("query")).a(a).b(b)
+            } else {
+                Op::new(&nm("tof")).a(a).form(rng.below(2))
+            }
+        }
         36 | 37 => Op::new(rng.pick(&["fd.todec", "fd.tobin", "fd.rounding"])).a(a).dst(d),
         38 => Op::new(&nm("rt")).a(a).dst(d).form(rng.below(9)).n(rng.below(40) as i64),
         _ => Op::new(&nm("clonefrom")).a(a).dst(d),
